@@ -1,5 +1,6 @@
-(* C39 — boundary condition objects (porepy/params/bc.py), as repaired by the commit
-   "fix: boundary condition setters keep the Dirichlet/Neumann/Robin flags exclusive".
+(* C39 — boundary condition objects (porepy/params/bc.py), as repaired by the commits
+   "fix: boundary condition setters keep the Dirichlet/Neumann/Robin flags exclusive" and
+   "fix: AbstractBoundaryCondition.copy returns an independent object of the same class".
    Transcribes BoundaryCondition.__init__, BoundaryConditionVectorial.__init__ / set_bc,
    AbstractBoundaryCondition.internal_to_dirichlet and Grid.get_all_boundary_faces (faces
    tagged domain_boundary, fracture or tip).  The pre-fix assignment is kept as
@@ -147,8 +148,10 @@ Fixpoint map_nth {A} (f : A -> A) (l : list A) (i : nat) : list A :=
 Inductive op :=
 | OpSet (fs : option faces) (cd : option cond)      (* bc.set_bc(faces, cond) *)
 | OpInternal                                        (* bc.internal_to_dirichlet(sd) *)
-| OpUser (c f : nat) (t : ty).   (* documented manual assignment of component c, face f:
+| OpUser (c f : nat) (t : ty)    (* documented manual assignment of component c, face f:
                                     the three flags written by the user *)
+| OpCopy.                        (* bc = bc.copy(): an independent object of the same class
+                                    with equal flag arrays; the history goes on with the copy *)
 
 Definition step (asg : nat -> ty -> comp -> comp) (g : grid) (o : obj) (p : op) : obj * outcome :=
   match p with
@@ -163,6 +166,7 @@ Definition step (asg : nat -> ty -> comp -> comp) (g : grid) (o : obj) (p : op) 
       if (c <? length (comps o)) && (f <? nf g)
       then (mkO (vectorial o) (map_nth (assign f t) (comps o) c), Done false)
       else (o, Fail false IndexErr)
+  | OpCopy => (mkO (vectorial o) (comps o), Done false)
   end.
 
 Fixpoint run (asg : nat -> ty -> comp -> comp) (g : grid) (o : obj) (ps : list op)
